@@ -97,7 +97,12 @@ func cfgGen(rng *vRand) *pb.ApiConfig {
 	for i := 0; i < n; i++ {
 		m := &pb.MethodConfig{}
 		for j := 0; j < rng.Intn(4); j++ {
-			m.Name = append(m.Name, fmt.Sprintf("/svc/m%d", rng.Intn(8)))
+			n := fmt.Sprintf("/svc/m%d", rng.Intn(8))
+			if rng.Intn(10) == 0 {
+				// a listed name is taken literally, also with surrounding whitespace
+				n = []string{" " + n, n + " ", "\t" + n}[rng.Intn(3)]
+			}
+			m.Name = append(m.Name, n)
 		}
 		if rng.Intn(5) != 0 {
 			m.Affinity = &pb.AffinityConfig{Command: cfgCmds[rng.Intn(3)], AffinityKey: cfgPaths[rng.Intn(len(cfgPaths))]}
@@ -441,6 +446,14 @@ func cfgPool(c *cfgCase, rng *vRand, cfg *pb.ApiConfig) {
 		return pr, err, true
 	}
 	names := []string{"/svc/m0", "/svc/m1", "/svc/m2", "/svc/m3", "/svc/m4", "/svc/m5", "/svc/m6", "/svc/m7", "/svc/extra", "/svc/extra2", "/svc/unlisted"}
+	for _, m := range orig.GetMethod() {
+		for _, n := range m.GetName() {
+			if strings.TrimSpace(n) != n {
+				names = append(names, n)
+				c.out.hit("C17.method-name-with-whitespace")
+			}
+		}
+	}
 	rr := orig.GetChannelPool().GetBindPickStrategy() == pb.ChannelPoolConfig_ROUND_ROBIN
 	for _, n := range names {
 		if amb[n] || c.bad {
